@@ -221,7 +221,14 @@ def allele_copy(gene, minor_name):
     """(configuration, set of carried variants, major name) of a catalogued minor allele, read from the
     loaded catalogue (C08 separately shows that the loaded variants denote the database's haplotype)."""
     a, m = gene.get_allele(minor_name)
-    return a.cn_config, set(a.func_muts) | set(m.neutral_muts), a.name
+    ms = set(a.func_muts) | set(m.neutral_muts)
+    cn0 = gene.cn_configs[a.cn_config].cn[0]
+    if any(v == 0 for v in cn0.values()):
+        # a fusion / partial-deletion allele: a haplotype of it has the gene's sequence only in the regions its configuration retains,
+        # so a variant the database lists in a lost region (shipped CYP2D6 *61.001, *4.013) is not part of the simulated haplotype
+        keep = [rg for r, rg in gene.regions[0].items() if cn0.get(r, 0) > 0]
+        ms = {x for x in ms if any(rg.start <= x[0] < rg.end for rg in keep)}
+    return a.cn_config, ms, a.name
 
 
 def order_copies(copies):
